@@ -800,7 +800,7 @@ func (c *Check) netPol(np *ssa.Function) {
 				notIng = true
 			}
 		default:
-			if a.If != nil && h != nil && a.If.Block() != h && h.Dominates(a.If.Block()) {
+			if a.If != nil && h != nil && a.If.Block() != h && domSame(h, a.If.Block()) {
 				extra++
 			}
 		}
